@@ -2,7 +2,7 @@
    Print Assumptions the check collects. *)
 From Coq Require Import ZArith List Bool Lia Sorted.
 From IBL.lib Require Import PyInt.
-From IBL.C10 Require Import Model Proofs.
+From IBL.C10 Require Import Model Bits Proofs.
 Import ListNotations.
 Open Scope Z_scope.
 
